@@ -196,3 +196,71 @@ class RegisteredSub(Registered):
 
 class ComplexSub(complex):
     """complex is registered in copyreg.dispatch_table; its subclasses are not"""
+
+
+import datetime as _dt
+_EPOCH = _dt.datetime(2000, 1, 1)
+
+
+class Stamp:
+    """Its state is computed afresh by every __getstate__ call: a datetime and a complex number that exist only while the
+    object is being dumped (temporaries of a kind the dumper may anchor)."""
+
+    def __init__(self, n):
+        self.n = n
+
+    def __getstate__(self):
+        return {"when": _EPOCH + _dt.timedelta(seconds=self.n), "z": complex(self.n, 0.5)}
+
+    def __setstate__(self, state):
+        self.n = int((state["when"] - _EPOCH).total_seconds())
+        self.z_real = state["z"].real
+
+
+def make_phasor(z):
+    return Phasor(z.real, z.imag)
+
+
+class Phasor:
+    """Reduces to a call with a freshly built complex argument."""
+
+    def __init__(self, r, i):
+        self.r, self.i = r, i
+
+    def __reduce__(self):
+        return (make_phasor, (complex(self.r, self.i),))
+
+
+class Tally(dict):
+    """A dict subclass whose __setitem__ maintains something that is not part of the pickled state: the reduction protocol
+    restores dict items by item assignment, so the total is rebuilt by loading."""
+
+    def __init__(self):
+        super().__init__()
+        self.total = 0          # (nothing order-dependent: sort_keys may reorder the items of a dict subclass, a listed finding)
+
+    def __setitem__(self, key, value):
+        super().__setitem__(key, value)
+        self.total += 1
+
+    def __reduce__(self):
+        return (Tally, (), None, None, iter(self.items()))
+
+
+class Journal(list):
+    """The list counterpart: items come back through append / extend."""
+
+    def __init__(self):
+        super().__init__()
+        self.count = 0
+
+    def append(self, item):
+        super().append(item)
+        self.count += 1
+
+    def extend(self, items):
+        for i in items:
+            self.append(i)
+
+    def __reduce__(self):
+        return (Journal, (), None, iter(self))
